@@ -233,29 +233,45 @@ impl Store {
         let query = Query::new().push(Cond::and().push(Expr::eq("pid", proc.id())));
         let tasks = collection.query(&query)?;
 
-        // nodes built at run time are described in the row of the task that built them:
-        // bring them back, outermost first, before the tasks are bound to their nodes
-        let mut dynamic: HashMap<String, Arc<Node>> = HashMap::new();
-        let mut builders = tasks
-            .rows
-            .iter()
-            .filter_map(|t| serde_json::from_str::<StoredNode>(&t.node_data).ok())
-            .filter(|d| !d.nodes.is_empty())
-            .collect::<Vec<_>>();
-        builders.sort_by_key(|d| d.level);
-        for d in builders {
-            if let Some(node) = tree.node(&d.id).or_else(|| dynamic.get(&d.id).cloned()) {
-                let mut found = Vec::new();
-                node.restore_nodes(&d.nodes, &mut found);
-                for n in found {
-                    dynamic.insert(n.id().to_string(), n);
-                }
-            }
-        }
-
-        for t in tasks.rows {
+        // nodes built at run time are described in the row of the task that built them.
+        // The rows are bound in the order the tasks were created: a builder comes before the
+        // tasks of the nodes it built, and a task before its successor
+        let mut rows = tasks.rows;
+        rows.sort_by_key(|t| t.timestamp);
+        let mut dynamic: Vec<Arc<Node>> = Vec::new();
+        let mut bound: HashMap<String, Arc<Node>> = HashMap::new();
+        for t in rows {
             let state: TaskState = t.state.into();
-            let node = Node::from_str_with(&t.node_data, tree, &dynamic);
+            let stored = serde_json::from_str::<StoredNode>(&t.node_data)
+                .map_err(|err| ActError::Store(err.to_string()))?;
+            let node = match tree.node(&stored.id) {
+                Some(node) => node,
+                None => {
+                    // several built nodes may carry the same id (an act with an explicit id in every
+                    // generated group): the one meant hangs below, or follows, the node of `prev`
+                    let prev_node = t.prev.as_ref().and_then(|tid| bound.get(tid));
+                    let mut same_id = dynamic.iter().filter(|n| n.id() == stored.id);
+                    let linked = prev_node.and_then(|p| {
+                        same_id.clone().find(|n| {
+                            let parent = n.parent.read().unwrap().upgrade();
+                            let follows = n.prev().upgrade();
+                            parent.map(|x| Arc::ptr_eq(&x, p)).unwrap_or(false)
+                                || follows.map(|x| Arc::ptr_eq(&x, p)).unwrap_or(false)
+                        })
+                    });
+                    match linked.or_else(|| same_id.next()) {
+                        Some(node) => node.clone(),
+                        None => Node::from_str(&t.node_data, tree),
+                    }
+                }
+            };
+            if !stored.nodes.is_empty() {
+                let mut found = Vec::new();
+                node.restore_nodes(&stored.nodes, &mut found);
+                dynamic.extend(found);
+            }
+            bound.insert(t.tid.clone(), node.clone());
+
             let mut task = scheduler::Task::new(proc, &t.tid, node, rt);
             task.set_pure_state(state.clone());
             task.set_start_time(t.start_time);
